@@ -185,4 +185,11 @@ FINDINGS = [
               'c BOOLEAN } value {a TRUE, c FALSE} gives 30 06 8001ff 820100 (c = [2]) instead of 30 06 8001ff 810100 (c = [1], b = [2])',
          witness=dict(kind='encode_expect', spec=HDR + 'A ::= SEQUENCE { a BOOLEAN, ..., b NULL, ..., c BOOLEAN }' + END, codec='der', type='A',
                       value={'a': True, 'c': False}, expected_hex='30068001ff810100')),
+    dict(key='ber-unknown-alternative-of-nested-untagged-extensible-choice', props=['C07'],
+         text='BER/DER: an untagged extensible CHOICE that is itself an alternative of another CHOICE: an alternative added to the inner CHOICE '
+              'by a newer version is rejected by the older decoder with DecodeTagError instead of being reported as an unknown alternative: '
+              'A ::= CHOICE { a BOOLEAN, c CHOICE { x [0] INTEGER, ... } } (EXPLICIT TAGS) does not decode a1 02 05 00, while the inner CHOICE '
+              'alone gives (None, None) (ber.py Choice.decode only knows the tags of the known inner alternatives)',
+         witness=dict(kind='decode_expect', spec='M DEFINITIONS EXPLICIT TAGS ::= BEGIN A ::= CHOICE { a BOOLEAN, c CHOICE { x [0] INTEGER, ... } }' + END,
+                      codec='ber', type='A', data_hex='a1020500', expected=T(['c', T([None, None])]))),
 ]
